@@ -25,14 +25,19 @@ type replayDriver struct {
 	Test     string // test name
 	Mode     string // VERIF_REPLAY_MODE
 	TimeoutS int
+	// Rewrite: a source file of the package that is replaced, in the overlay only, by a copy in
+	// which From is textually replaced by To (e.g. time.Now() by an injectable clock). Stated in the replay file.
+	Rewrite [3]string // file (relative to Pkg), from, to
 }
 
 var replayDrivers = map[string]replayDriver{
-	"codec-encode": {"pkg/entities", "entities/codec_replay_test.go", "TestVerifReplayCodec", "encode", 120},
-	"codec-decode": {"pkg/entities", "entities/codec_replay_test.go", "TestVerifReplayCodec", "decode", 120},
-	"session":      {"pkg/exporter", "exporter/session_replay_test.go", "TestVerifReplaySession", "", 120},
-	"packet":       {"pkg/collector", "collector/packet_replay_test.go", "TestVerifReplayPacket", "", 120},
-	"registry-enum": {"pkg/registry", "registry/enum_replay_test.go", "TestVerifEnumRegistry", "", 120},
+	"codec-encode": {Pkg: "pkg/entities", File: "entities/codec_replay_test.go", Test: "TestVerifReplayCodec", Mode: "encode", TimeoutS: 120},
+	"codec-decode": {Pkg: "pkg/entities", File: "entities/codec_replay_test.go", Test: "TestVerifReplayCodec", Mode: "decode", TimeoutS: 120},
+	"session":      {Pkg: "pkg/exporter", File: "exporter/session_replay_test.go", Test: "TestVerifReplaySession", TimeoutS: 120},
+	"packet":       {Pkg: "pkg/collector", File: "collector/packet_replay_test.go", Test: "TestVerifReplayPacket", TimeoutS: 120},
+	"registry-enum": {Pkg: "pkg/registry", File: "registry/enum_replay_test.go", Test: "TestVerifEnumRegistry", TimeoutS: 120},
+	"expiry": {Pkg: "pkg/intermediate", File: "intermediate/expiry_replay_test.go", Test: "TestVerifReplayExpiry", TimeoutS: 120,
+		Rewrite: [3]string{"aggregate.go", "time.Now()", "verifNow()"}},
 }
 
 var valueLine = regexp.MustCompile(`\(\s*([^\s()]+)\s+(\(-\s*\d+\)|-?\d+|true|false)\s*\)`)
@@ -102,6 +107,18 @@ func tryReplay(vd, repo, prop string, u *UnitResult, o *Oblig, info map[string]i
 	ov := map[string]map[string]string{"Replace": {
 		filepath.Join(repo, drv.Pkg, "zz_verif_replay_test.go"): filepath.Join(vd, "replay", drv.File),
 	}}
+	if drv.Rewrite[0] != "" {
+		src := filepath.Join(repo, drv.Pkg, drv.Rewrite[0])
+		data, err := os.ReadFile(src)
+		if err != nil {
+			info["replay_note"] = "cannot read " + src
+			return false
+		}
+		rew := filepath.Join(tmp, "rewritten_"+drv.Rewrite[0])
+		_ = os.WriteFile(rew, []byte(strings.ReplaceAll(string(data), drv.Rewrite[1], drv.Rewrite[2])), 0o644)
+		ov["Replace"][src] = rew
+		info["replay_rewrite"] = fmt.Sprintf("in the overlay copy of %s only, %q is textually replaced by %q (injectable clock); /repo is not modified", drv.Rewrite[0], drv.Rewrite[1], drv.Rewrite[2])
+	}
 	ovData, _ := json.Marshal(ov)
 	ovPath := filepath.Join(tmp, "overlay.json")
 	_ = os.WriteFile(ovPath, ovData, 0o644)
